@@ -175,6 +175,7 @@ def Arr.cfunEnsure (a : Arr) (cap growth : Arg) : Arr × Outcome Val :=
   match getInteger cap, getInteger growth with
   | some c, some g =>
     if c < 1 then (a, .err)
+    else if ensureChecksGrowth && g < 1 then (a, .err)     -- only in sources that validate `growth`
     else match a.ensure c g with
       | none => (a, .oom)
       | some a' => (a', .ok)
